@@ -113,7 +113,7 @@ def audit(prop_id):
         for m in FORBIDDEN.finditer(body):
             res["forbidden"].append(f"{f.relative_to(LEAN)}: {m.group(0).strip()}")
     text = strip_comments(pf.read_text())
-    thms = re.findall(r"^\s*theorem\s+([\w\.']+)", text, flags=re.M)
+    thms = re.findall(r"^\s*(?:private\s+|protected\s+)?theorem\s+([^\s\(\{\[:]+)", text, flags=re.M)
     res["theorems"] = thms
     ns = re.search(r"^namespace\s+([\w\.]+)", text, flags=re.M)
     nsname = ns.group(1) if ns else ""
@@ -131,7 +131,7 @@ def audit(prop_id):
         lake_unlock()
     res["log"] = out[-4000:]
     cur = None
-    for m in re.finditer(r"'([\w\.']+)' (depends on axioms: \[([^\]]*)\]|does not depend on any axioms)", out):
+    for m in re.finditer(r"'([^']+(?:'[^' ]*)*)' (depends on axioms: \[([^\]]*)\]|does not depend on any axioms)", out):
         name = m.group(1).split(".")[-1]
         ax = [a.strip() for a in (m.group(3) or "").split(",") if a.strip()]
         res["axioms"][name] = ax
